@@ -18,19 +18,31 @@
 package c08
 
 import (
+	"bufio"
 	"bytes"
+	"crypto/sha256"
 	"encoding/binary"
+	"encoding/hex"
 	"encoding/json"
+	"errors"
 	"fmt"
 	"hash/crc32"
 	"math"
 	"os"
+	"os/exec"
 	"path/filepath"
+	"regexp"
+	"runtime/debug"
+	"runtime/pprof"
 	"sort"
+	"strconv"
 	"strings"
+	"sync"
 	"testing"
+	"time"
 
 	"github.com/influxdata/influxdb/v2/tsdb/engine/tsm1"
+	"verif/h/crashfs"
 	"verif/h/tsmkit"
 	"verif/h/vlib"
 )
@@ -1316,11 +1328,12 @@ func evalTomb(dir string, m *model, h TombHistory, stats map[string]int64) (fail
 
 // Case is the replayable form of any enumerated case.
 type Case struct {
-	Fam  string       `json:"family"` // readback | tomb | maxkey
-	File *FileSpec    `json:"file,omitempty"`
-	Hist *TombHistory `json:"history,omitempty"`
-	A    []TombStep   `json:"acked,omitempty"`     // recovery family: steps completed
-	B    []TombStep   `json:"in_flight,omitempty"` // recovery family: the step that may or may not have happened
+	Fam   string       `json:"family"` // readback | tomb | maxkey
+	File  *FileSpec    `json:"file,omitempty"`
+	Hist  *TombHistory `json:"history,omitempty"`
+	A     []TombStep   `json:"acked,omitempty"`     // recovery family: steps completed
+	B     []TombStep   `json:"in_flight,omitempty"` // recovery family: the step that may or may not have happened
+	Crash *CrashCase   `json:"crash,omitempty"`     // crash family
 }
 
 func subsetOf(mask int) []int {
@@ -1712,6 +1725,811 @@ func evalMaxKey(dir string) []fail {
 }
 
 // ---------------------------------------------------------------------------------------------------------
+// crash family (engine: verif/h/crashfs): the crash clause of the statement
+// ---------------------------------------------------------------------------------------------------------
+//
+// A history writer (this binary re-executed under strace) runs WriteTombHistory with BEGIN/ACK markers: op 0 writes
+// the TSM file, op i+1 is step i (exactly one tombstone commit or none per step). Every prefix / torn-write /
+// unsynced image of the syscall log that lies after the acknowledgement of op 0 is materialized and recovered by a
+// fresh subprocess with the real TSMReader.
+
+// CrashTombHistory is one recorded history of the crash family.
+type CrashTombHistory struct {
+	Name  string     `json:"name"`
+	File  FileSpec   `json:"file"`
+	Steps []TombStep `json:"steps"`
+	// LastOnly: only the images whose cut lies inside or after the LAST step are evaluated (the earlier cuts belong
+	// to the history without that step, which the enumerated family contains too).
+	LastOnly bool `json:"last_only,omitempty"`
+}
+
+func cstep(kind string, ops ...TombOp) TombStep { return TombStep{Kind: kind, Ops: ops} }
+func top(min, max int64, keys ...int) TombOp    { return TombOp{Keys: keys, Min: min, Max: max} }
+
+// crashTombHistories lists the histories of a tier. Every step performs at most ONE tombstone commit (a commit
+// batch, a DeleteRange with one op, a Delete with one op), so "old or new" is well defined per step.
+func crashTombHistories(tier string) []CrashTombHistory {
+	bases := tombBases(false)
+	full := top(math.MinInt64, math.MaxInt64)
+	hs := []CrashTombHistory{
+		// two keys: first tombstone (create path: tmp + header + gzip member, fsync, rename, SyncDir), then three
+		// appends (copy of the old file into the tmp, one more gzip member): batch commit, DeleteRange over both
+		// keys, whole-key Delete
+		{Name: "create-append", File: bases[2].file, Steps: []TombStep{
+			cstep("commit", top(1, 2, 0)), cstep("commit", top(3, 3, 4)), cstep("drange", top(4, 5, 0, 4)), cstep("delete", TombOp{Keys: []int{0}})}},
+		// three keys (prefix pair + escaped): two whole keys in one batch, a rollback (tmp created and removed), a
+		// batch of two ops on one key, reopen, DeleteRange of what is left of that key
+		{Name: "rollback-batch-reopen", File: bases[0].file, Steps: []TombStep{
+			cstep("commit", TombOp{Keys: []int{0, 1}, Min: full.Min, Max: full.Max}), cstep("rollback", top(1, 5, 2)), cstep("commit", top(2, 4, 2), top(5, 5, 2)), cstep("reopen"), cstep("drange", top(1, 5, 2))}},
+		// single key hidden piecewise until nothing is left; rollback in between
+		{Name: "single-key", File: bases[3].file, Steps: []TombStep{
+			cstep("commit", top(1, 1, 2)), cstep("reopen"), cstep("commit", top(2, 3, 2)), cstep("rollback", top(4, 4, 2)), cstep("commit", top(4, 5, 2))}},
+	}
+	if tier != "thorough" {
+		return hs
+	}
+	hs = append(hs,
+		// 65 535-byte key inside the tombstone records (TSM file and images of ~66 KB)
+		CrashTombHistory{Name: "long-key", File: bases[1].file, Steps: []TombStep{
+			cstep("commit", top(2, 2, 3)), cstep("commit", top(3, 3, 1, 3, 5)), cstep("delete", TombOp{Keys: []int{3}})}},
+	)
+	// enumerated: two-key file; A in {no tombstone, 4 representative committed ops} x B in {commit of one op over
+	// every file key x 6 ranges, commit over both keys, Delete of each key}
+	base := bases[2]
+	var bs []TombStep
+	var keys []int
+	for _, k := range base.file.Keys {
+		keys = append(keys, k.K)
+		for _, rg := range reducedRanges(false) {
+			bs = append(bs, cstep("commit", top(rg.min, rg.max, k.K)))
+		}
+	}
+	bs = append(bs, cstep("commit", top(2, 4, keys...)))
+	for _, k := range keys {
+		bs = append(bs, cstep("delete", TombOp{Keys: []int{k}}))
+	}
+	as := [][]TombStep{nil}
+	for _, k := range keys {
+		as = append(as, []TombStep{cstep("commit", top(1, 2, k))}, []TombStep{cstep("commit", top(full.Min, full.Max, k))})
+	}
+	for ai, a := range as {
+		for bi, b := range bs {
+			hs = append(hs, CrashTombHistory{Name: fmt.Sprintf("enum:a%d,b%d", ai, bi), File: base.file,
+				Steps: append(append([]TombStep(nil), a...), b), LastOnly: len(a) > 0})
+		}
+	}
+	return hs
+}
+
+// ---------------------------------------------------------------- history writer (runs under strace)
+
+type crashWriterSpec struct {
+	Dir     string     `json:"dir"`
+	Markers string     `json:"markers"`
+	File    FileSpec   `json:"file"`
+	Steps   []TombStep `json:"steps"`
+}
+
+func crashWriterMain(js string) int {
+	var sp crashWriterSpec
+	if err := json.Unmarshal([]byte(js), &sp); err != nil {
+		fmt.Fprintln(os.Stderr, "c08 writer: bad spec:", err)
+		return 2
+	}
+	m, err := crashfs.OpenMarkers(sp.Markers)
+	if err != nil {
+		fmt.Fprintln(os.Stderr, "c08 writer:", err)
+		return 2
+	}
+	if err := os.Mkdir(sp.Dir, 0o777); err != nil {
+		fmt.Fprintln(os.Stderr, "c08 writer:", err)
+		return 2
+	}
+	err = WriteTombHistory(sp.Dir, sp.File, sp.Steps, func(i int, s TombStep, begin bool, err error) {
+		switch {
+		case begin:
+			m.Begin(i+1, s.Kind)
+		case err == nil:
+			m.Ack(i+1, "ok")
+		}
+	})
+	if err != nil {
+		// histories are designed to succeed; a failing step is a harness problem, not an acknowledged op
+		fmt.Fprintln(os.Stderr, "c08 writer: history failed:", err)
+		return 1
+	}
+	return 0
+}
+
+// ---------------------------------------------------------------- recovery checker (fresh subprocess, batch of images)
+
+// TombObs is what the real code did on one image.
+type TombObs struct {
+	ID    string `json:"id"`
+	Died  string `json:"died,omitempty"` // set by the parent: the recovery subprocess died or hung on this image, also alone
+	Panic string `json:"panic,omitempty"`
+	// stage 1: NewTSMReader on the image, ReadAll of every written key, Tombstoner.Walk
+	OpenErr string        `json:"open_err,omitempty"`
+	Hidden  []HiddenPoint `json:"hidden,omitempty"`
+	Extra   []string      `json:"extra,omitempty"`
+	Raw     []string      `json:"raw,omitempty"`
+	// stage 2: temp files removed (as Engine.Open does), one more tombstone through the real reader, close, reopen
+	Open2Err string        `json:"open2_err,omitempty"`
+	DelErr   string        `json:"del_err,omitempty"`
+	Open3Err string        `json:"open3_err,omitempty"`
+	Hidden2  []HiddenPoint `json:"hidden2,omitempty"`
+	Extra2   []string      `json:"extra2,omitempty"`
+	Stage    int           `json:"stage"` // 1: first view taken, 2: view after the further tombstone taken
+}
+
+func crashRecoverOne(dir string, fs FileSpec, further *TombOp, id string) (o TombObs) {
+	o.ID = id
+	defer func() {
+		for _, p := range []*string{&o.Panic, &o.OpenErr, &o.Open2Err, &o.DelErr, &o.Open3Err} {
+			*p = scrub(*p, dir)
+		}
+	}()
+	panicked, desc := vlib.Guard(func() {
+		tv, err := ObserveTombstones(dir, fs)
+		if err != nil {
+			o.OpenErr = err.Error()
+			return
+		}
+		o.Hidden, o.Extra, o.Raw = tv.Hidden, tv.Extra, tv.Raw
+		o.Stage = 1
+		// what Engine.Open does before the file store is loaded: leftover temp files are removed
+		tmps, _ := filepath.Glob(filepath.Join(dir, "*."+tsm1.CompactionTempExtension))
+		for _, t := range tmps {
+			os.Remove(t)
+		}
+		if further != nil {
+			r, err := openReader(filepath.Join(dir, TSMName))
+			if err != nil {
+				o.Open2Err = err.Error()
+				return
+			}
+			err = r.DeleteRange(opKeys(*further), further.Min, further.Max)
+			r.Close()
+			if err != nil {
+				o.DelErr = err.Error()
+				return
+			}
+		}
+		tv, err = ObserveTombstones(dir, fs)
+		if err != nil {
+			o.Open3Err = err.Error()
+			return
+		}
+		o.Hidden2, o.Extra2 = tv.Hidden, tv.Extra
+		o.Stage = 2
+	})
+	if panicked {
+		o.Panic = desc
+	}
+	return
+}
+
+type crashRecJob struct {
+	Dirs    []string   `json:"dirs"`
+	IDs     []string   `json:"ids"`
+	Files   []FileSpec `json:"files"`
+	Further []*TombOp  `json:"further"`
+	Out     string     `json:"out"`
+}
+
+func crashRecoverMain(jobPath string) int {
+	b, err := os.ReadFile(jobPath)
+	if err != nil {
+		fmt.Fprintln(os.Stderr, "c08 recover:", err)
+		return 2
+	}
+	var job crashRecJob
+	if err := json.Unmarshal(b, &job); err != nil {
+		fmt.Fprintln(os.Stderr, "c08 recover:", err)
+		return 2
+	}
+	out, err := os.OpenFile(job.Out, os.O_CREATE|os.O_WRONLY|os.O_APPEND, 0o666)
+	if err != nil {
+		fmt.Fprintln(os.Stderr, "c08 recover:", err)
+		return 2
+	}
+	debug.SetMaxStack(64 << 20)
+	if pf := os.Getenv("C08_RECOVER_PROF"); pf != "" { // development aid
+		if f, err := os.Create(pf); err == nil {
+			pprof.StartCPUProfile(f)
+			defer pprof.StopCPUProfile()
+		}
+	}
+	for i, d := range job.Dirs {
+		fmt.Fprintf(os.Stderr, "c08 recover: image %s\n", job.IDs[i])
+		o := crashRecoverOne(d, job.Files[i], job.Further[i], job.IDs[i])
+		line, _ := json.Marshal(o)
+		out.Write(append(line, '\n'))
+	}
+	out.Close()
+	return 0
+}
+
+// ---------------------------------------------------------------- acknowledgement context and oracle
+
+// tombCtx is the model of one image: steps acknowledged before the cut and the step in flight.
+type tombCtx struct {
+	A    []TombStep // acknowledged steps
+	B    []TombStep // the step in flight (nil or one element)
+	Infl string     // kind of the step in flight: none | commit | drange | delete | rollback | reopen
+	Path string     // "create" while no acknowledged step has written a tombstone file, else "append"
+}
+
+// tombContextOf returns ok=false for the images cut before the TSM file itself was acknowledged (not a crash
+// during a tombstone write).
+func tombContextOf(h CrashTombHistory, im *crashfs.Image) (cx tombCtx, ok bool) {
+	acked := im.Acked()
+	if len(acked) == 0 {
+		return cx, false
+	}
+	n := len(acked) - 1 // op 0 is the TSM file
+	cx.A = h.Steps[:n]
+	cx.Infl, cx.Path = "none", "create"
+	if f := im.InFlight(); f != nil && f.K >= 1 && f.K-1 < len(h.Steps) {
+		cx.B = h.Steps[f.K-1 : f.K]
+		cx.Infl = cx.B[0].Kind
+	}
+	if len(recordedBy(cx.A).recs) > 0 {
+		cx.Path = "append"
+	}
+	return cx, true
+}
+
+func hiddenSet(l []HiddenPoint) map[HiddenPoint]bool {
+	m := map[HiddenPoint]bool{}
+	for _, h := range l {
+		m[h] = true
+	}
+	return m
+}
+
+func subsetHidden(a, b []HiddenPoint) bool {
+	bs := hiddenSet(b)
+	for _, h := range a {
+		if !bs[h] {
+			return false
+		}
+	}
+	return true
+}
+
+func hiddenStr(l []HiddenPoint) string { return (&TombView{Hidden: l}).String() }
+
+// furtherOp picks the tombstone written after the recovery: the last written point that even the complete in-flight
+// step leaves visible (nil when nothing is left).
+func furtherOp(fs FileSpec, cx tombCtx) *TombOp {
+	m := buildModel(fs)
+	tm := recordedBy(append(append([]TombStep(nil), cx.A...), cx.B...))
+	for i := len(m.keys) - 1; i >= 0; i-- {
+		mk := &m.keys[i]
+		if vs := visible(mk, tm); len(vs) > 0 {
+			t := vs[len(vs)-1].UnixNano()
+			return &TombOp{Keys: []int{mk.k}, Min: t, Max: t}
+		}
+	}
+	return nil
+}
+
+// judgeTomb applies the crash oracle: the visible tombstone set is the one of the acknowledged steps (old) or of
+// those plus the step in flight (new) — with nothing in flight exactly the acknowledged one —, the file opens, and a
+// further tombstone is recorded and persists.
+func judgeTomb(o *TombObs, fs FileSpec, cx tombCtx, further *TombOp) (clause, stage, detail, verdict string) {
+	switch {
+	case o.Died != "":
+		return "recovery-died", "recovery", "the recovery process did not survive the crash image: " + o.Died, ""
+	case o.Panic != "":
+		return "panic", "recovery", "panic while opening the crash image: " + o.Panic, ""
+	case o.OpenErr != "":
+		return "file-hidden", "recovery", "the TSM file does not open (a tombstone parse error hides the file): " + o.OpenErr, ""
+	case len(o.Extra) > 0:
+		return "phantom-values", "recovery", "values that were never written: " + strings.Join(o.Extra, "; "), ""
+	}
+	old := ExpectedHidden(fs, cx.A)
+	nw := ExpectedHidden(fs, append(append([]TombStep(nil), cx.A...), cx.B...))
+	isOld, isNew := sameHidden(o.Hidden, old), sameHidden(o.Hidden, nw)
+	switch {
+	case isOld && isNew:
+		verdict = "old=new"
+	case isOld:
+		verdict = "old"
+	case isNew:
+		verdict = "new"
+	default:
+		allowed := "the acknowledged set " + hiddenStr(old)
+		if len(cx.B) > 0 {
+			allowed += " or, with the step in flight, " + hiddenStr(nw)
+		}
+		detail = fmt.Sprintf("hidden points %s; allowed: %s (tombstone records on disk: %v)", hiddenStr(o.Hidden), allowed, o.Raw)
+		switch {
+		case !subsetHidden(old, o.Hidden):
+			return "acknowledged-tombstone-lost", "recovery", detail, ""
+		case subsetHidden(o.Hidden, nw):
+			return "partial-new-set", "recovery", detail, ""
+		}
+		return "phantom-tombstone", "recovery", detail, ""
+	}
+	// stage 2
+	switch {
+	case o.Open2Err != "":
+		return "file-hidden", "further-tombstone", "the file does not open for the further delete: " + o.Open2Err, verdict
+	case o.DelErr != "":
+		return "rejects-tombstone", "further-tombstone", fmt.Sprintf("DeleteRange(%v) after the recovery (temp files removed): %s", *further, o.DelErr), verdict
+	case o.Open3Err != "":
+		return "file-hidden", "further-tombstone", "the file does not open after the further delete: " + o.Open3Err, verdict
+	case o.Stage < 2:
+		return "harness", "further-tombstone", "no second view", verdict
+	case len(o.Extra2) > 0:
+		return "phantom-values", "further-tombstone", "values that were never written: " + strings.Join(o.Extra2, "; "), verdict
+	}
+	want := append([]HiddenPoint(nil), o.Hidden...)
+	if further != nil {
+		want = append(want, HiddenPoint{further.Keys[0], further.Min})
+		sort.Slice(want, func(i, j int) bool {
+			if want[i].K != want[j].K {
+				return want[i].K < want[j].K
+			}
+			return want[i].T < want[j].T
+		})
+	}
+	if !sameHidden(o.Hidden2, want) {
+		c := "further-tombstone-wrong"
+		if !subsetHidden(o.Hidden, o.Hidden2) {
+			c = "tombstone-lost-after-further-delete"
+		}
+		return c, "further-tombstone", fmt.Sprintf("after one more DeleteRange and a reopen the hidden points are %s, want %s", hiddenStr(o.Hidden2), hiddenStr(want)), verdict
+	}
+	return "", "", "", verdict
+}
+
+// ---------------------------------------------------------------- recording, image enumeration, driver
+
+var crashImgOpts = crashfs.Options{SyncClasses: []string{"*.tombstone", "*.tmp"}, Torn: true, Unsynced: true}
+
+func selfEnv(extra ...string) []string {
+	var env []string
+	for _, e := range os.Environ() {
+		if strings.HasPrefix(e, "VERIF_WORKER") || strings.HasPrefix(e, "VERIF_REPLAY=") || strings.HasPrefix(e, "VERIF_CRASH_WRITER=") || strings.HasPrefix(e, "VERIF_C08_") || strings.HasPrefix(e, "C08_ONLY=") {
+			continue
+		}
+		env = append(env, e)
+	}
+	return append(env, extra...)
+}
+
+func recordCrashHistory(scratch string, h CrashTombHistory) (*crashfs.Log, error) {
+	dir, err := os.MkdirTemp(scratch, "rec-")
+	if err != nil {
+		return nil, err
+	}
+	defer os.RemoveAll(dir)
+	sp := crashWriterSpec{Dir: filepath.Join(dir, "shard"), Markers: filepath.Join(dir, "markers"), File: h.File, Steps: h.Steps}
+	js, _ := json.Marshal(sp)
+	return crashfs.Record(crashfs.RecordSpec{
+		Argv:       []string{os.Args[0], "-test.run", "^TestCheck$", "-test.timeout", "0"},
+		Env:        selfEnv("VERIF_CRASH_WRITER="+string(js), "GOMAXPROCS=1"),
+		DataDir:    sp.Dir,
+		MarkerFile: sp.Markers,
+	})
+}
+
+// prefixDigest pins the part of a log a descriptor depends on: every event up to the cut (and the torn write) with
+// paths, offsets and payload bytes. Two recordings with equal digests give byte-identical images.
+func prefixDigest(l *crashfs.Log, d crashfs.Descriptor) string {
+	n := d.Cut
+	if d.TornLen >= 0 && d.TornEvent >= n {
+		n = d.TornEvent + 1
+	}
+	if n > len(l.Events) {
+		return "log-too-short"
+	}
+	h := sha256.New()
+	for i := 0; i < n; i++ {
+		e := &l.Events[i]
+		fmt.Fprintf(h, "%s|%s|%s|%d|%d|%d|%x|", e.Op, e.Path, e.Path2, e.Ino, e.Off, e.Size, sha256.Sum256(e.Data))
+		if e.Marker != nil {
+			fmt.Fprintf(h, "%s|%d|%s|", e.Marker.Kind, e.Marker.K, e.Marker.Payload)
+		}
+	}
+	return hex.EncodeToString(h.Sum(nil)[:8])
+}
+
+var (
+	crashLogMu    sync.Mutex
+	crashLogCache = map[string]*crashfs.Log{} // recordings made by this process (the confirmation replays reuse them)
+)
+
+func crashHistoryKey(h CrashTombHistory) string {
+	return specStr(h.File) + specStr(h.Steps)
+}
+
+func findCrashLog(scratch string, h CrashTombHistory, d crashfs.Descriptor, digest string) (*crashfs.Log, string) {
+	crashLogMu.Lock()
+	l := crashLogCache[crashHistoryKey(h)]
+	crashLogMu.Unlock()
+	if l != nil && (digest == "" || prefixDigest(l, d) == digest) {
+		return l, ""
+	}
+	for try := 0; try < 4; try++ {
+		l, err := recordCrashHistory(scratch, h)
+		if err != nil {
+			return nil, "recording failed: " + err.Error()
+		}
+		crashLogMu.Lock()
+		crashLogCache[crashHistoryKey(h)] = l
+		crashLogMu.Unlock()
+		if digest == "" || prefixDigest(l, d) == digest {
+			return l, ""
+		}
+	}
+	return nil, "could not re-record a log with the same event prefix (the history is not deterministic enough for this descriptor)"
+}
+
+// isolatedTimeout bounds the recovery of ONE image in its own subprocess (normally milliseconds plus process start).
+const isolatedTimeout = 45 * time.Second
+
+type crashItem struct {
+	im      *crashfs.Image
+	fs      FileSpec
+	further *TombOp
+}
+
+// runCrashRecovery materializes the items into dir/<i> and runs ONE recovery subprocess over them. Items missing
+// from the result were not reached (the subprocess died or hung at the first missing one).
+func runCrashRecovery(dir string, items []crashItem, timeout time.Duration) (map[string]*TombObs, string, error) {
+	job := crashRecJob{Out: filepath.Join(dir, "out.jsonl")}
+	for i, it := range items {
+		d := filepath.Join(dir, strconv.Itoa(i))
+		if err := it.im.Materialize(d); err != nil {
+			return nil, "", fmt.Errorf("materialize %v: %w", it.im.Desc, err)
+		}
+		job.Dirs = append(job.Dirs, d)
+		job.IDs = append(job.IDs, strconv.Itoa(i))
+		job.Files = append(job.Files, it.fs)
+		job.Further = append(job.Further, it.further)
+	}
+	jb, _ := json.Marshal(job)
+	jp := filepath.Join(dir, "job.json")
+	if err := os.WriteFile(jp, jb, 0o666); err != nil {
+		return nil, "", err
+	}
+	cmd := exec.Command(os.Args[0], "-test.run", "^TestCheck$", "-test.timeout", "0")
+	cmd.Env = selfEnv("VERIF_C08_RECOVER=" + jp)
+	var stderr strings.Builder
+	cmd.Stdout = &stderr
+	cmd.Stderr = &stderr
+	if err := cmd.Start(); err != nil {
+		return nil, "", err
+	}
+	done := make(chan error, 1)
+	go func() { done <- cmd.Wait() }()
+	timedOut := false
+	select {
+	case <-done:
+	case <-time.After(timeout):
+		timedOut = true
+		cmd.Process.Kill()
+		<-done
+	}
+	res := map[string]*TombObs{}
+	if f, err := os.Open(job.Out); err == nil {
+		sc := bufio.NewScanner(f)
+		sc.Buffer(make([]byte, 1<<20), 64<<20)
+		for sc.Scan() {
+			var o TombObs
+			if json.Unmarshal(sc.Bytes(), &o) == nil && o.ID != "" {
+				oo := o
+				res[o.ID] = &oo
+			}
+		}
+		f.Close()
+	}
+	t := stderr.String()
+	if timedOut {
+		t = "TIMEOUT (recovery hangs)\n" + t
+	}
+	return res, t, nil
+}
+
+var repoFrameRe = regexp.MustCompile(`(?m)^(github\.com/influxdata/influxdb/v2/[^\n]*)\([^()\n]*\)\s*$`)
+
+// deathClass turns the output of a recovery subprocess that died or hung into a short deterministic description.
+func deathClass(out string) string {
+	what := "died"
+	switch {
+	case strings.HasPrefix(out, "TIMEOUT"):
+		return "hang (no result within the time limit)"
+	case strings.Contains(out, "stack overflow") || strings.Contains(out, "goroutine stack exceeds"):
+		what = "fatal error: stack overflow"
+	case strings.Contains(out, "fatal error:"):
+		i := strings.Index(out, "fatal error:")
+		what = strings.SplitN(out[i:], "\n", 2)[0]
+	case strings.Contains(out, "panic:"):
+		i := strings.Index(out, "panic:")
+		what = strings.SplitN(out[i:], "\n", 2)[0]
+	}
+	if m := repoFrameRe.FindStringSubmatch(out); m != nil {
+		what += " @ " + m[1]
+	}
+	return what
+}
+
+// recoverAll runs the recovery for all items in subprocess batches, isolating an item that kills its subprocess.
+// expired is polled between batches; items not reached stay nil and capped is returned true.
+func recoverAll(scratch string, items []crashItem, expired func() bool) (obs []*TombObs, notes map[int]string, capped bool, err error) {
+	obs = make([]*TombObs, len(items))
+	notes = map[int]string{}
+	const batch = 512
+	for lo := 0; lo < len(items); {
+		if expired != nil && expired() {
+			return obs, notes, true, nil
+		}
+		hi := min(lo+batch, len(items))
+		dir, err := os.MkdirTemp(scratch, "b-")
+		if err != nil {
+			return nil, nil, false, err
+		}
+		res, _, err := runCrashRecovery(dir, items[lo:hi], 90*time.Second+time.Duration(hi-lo)*time.Second/2)
+		os.RemoveAll(dir)
+		if err != nil {
+			return nil, nil, false, err
+		}
+		next := hi
+		for i := lo; i < hi; i++ {
+			if o := res[strconv.Itoa(i-lo)]; o != nil {
+				obs[i] = o
+			} else if i < next {
+				next = i
+			}
+		}
+		if next == hi {
+			lo = hi
+			continue
+		}
+		// the subprocess died or hung at item `next`: run it alone, then go on behind it
+		d2, _ := os.MkdirTemp(scratch, "iso-")
+		r2, out2, err2 := runCrashRecovery(d2, items[next:next+1], isolatedTimeout)
+		os.RemoveAll(d2)
+		switch {
+		case err2 != nil:
+			notes[next] = "the isolated recovery could not be run: " + err2.Error()
+		case r2["0"] != nil:
+			obs[next] = r2["0"] // passed alone: the batch death was not caused by this image
+		default:
+			obs[next] = &TombObs{ID: "0", Died: deathClass(out2)}
+		}
+		for i := next + 1; i < hi; i++ {
+			obs[i] = nil
+		}
+		lo = next + 1
+	}
+	return obs, notes, false, nil
+}
+
+// CrashCase is the replayable form of one crash violation.
+type CrashCase struct {
+	History CrashTombHistory   `json:"history"`
+	Desc    crashfs.Descriptor `json:"image"`
+	Digest  string             `json:"log_prefix_digest"`
+	Cut     string             `json:"cut_description"`
+}
+
+func cutClass(im *crashfs.Image) string {
+	c := im.NextClass
+	if c == "" {
+		c = "-"
+	}
+	return im.NextOp + ":" + c
+}
+
+func crashSig(clause, stage string, im *crashfs.Image, cx tombCtx) string {
+	return vlib.JoinSig("crash", clause, stage, "cut="+im.Desc.Kind, "path="+cx.Path, "inflight="+cx.Infl)
+}
+
+type ctxImg struct {
+	im *crashfs.Image
+	cx tombCtx
+}
+
+// crashPrep is one recorded history with its images grouped by (content, further tombstone).
+type crashPrep struct {
+	h     CrashTombHistory
+	log   *crashfs.Log
+	uniq  []crashItem
+	ctxs  [][]ctxImg
+	first int
+}
+
+func prepareCrashHistory(c *vlib.Ctx, scratch string, h CrashTombHistory) (pr *crashPrep, stop bool) {
+	t0 := time.Now()
+	defer func() {
+		if pr != nil {
+			c.Logf("crash history %s: %d events, %d image contents, recorded+enumerated in %v", h.Name, len(pr.log.Events), len(pr.uniq), time.Since(t0).Round(time.Millisecond))
+		}
+	}()
+	l, err := recordCrashHistory(scratch, h)
+	c.Logf("crash history %s: recording took %v", h.Name, time.Since(t0).Round(time.Millisecond))
+	if err != nil {
+		if errors.Is(err, crashfs.ErrNoTrace) {
+			c.Cap("crash family: strace cannot trace in this environment, no crash image was produced (" + err.Error() + ")")
+			return nil, true
+		}
+		c.HarnessError(fmt.Sprintf("crash family: recording history %s: %v", h.Name, scrub(err.Error(), scratch)))
+		return nil, false
+	}
+	crashLogMu.Lock()
+	crashLogCache[crashHistoryKey(h)] = l
+	crashLogMu.Unlock()
+	c.Extra("crash_histories", 1)
+	c.Extra("crash_events", int64(len(l.Events)))
+	c.Extra("crash_syscalls_in_logs", int64(l.Syscalls))
+	pr = &crashPrep{h: h, log: l}
+	byKey := map[string]int{}
+	var st crashfs.Stats
+	for im := range l.Images(crashImgOpts, &st) {
+		cx, ok := tombContextOf(h, im)
+		if !ok {
+			c.Extra("crash_images_skipped_before_tsm_file_acknowledged", 1)
+			continue
+		}
+		if h.LastOnly && len(h.Steps) > 0 {
+			if !(len(cx.A) == len(h.Steps) || (len(cx.A) == len(h.Steps)-1 && len(cx.B) > 0)) {
+				continue
+			}
+		}
+		fo := furtherOp(h.File, cx)
+		key := im.Hash + "|" + specStr(fo)
+		gi, seen := byKey[key]
+		if !seen {
+			gi = len(pr.uniq)
+			byKey[key] = gi
+			pr.uniq = append(pr.uniq, crashItem{im, h.File, fo})
+			pr.ctxs = append(pr.ctxs, nil)
+		}
+		pr.ctxs[gi] = append(pr.ctxs[gi], ctxImg{im, cx})
+	}
+	for _, k := range []string{"P", "T", "U"} {
+		c.Extra("crash_images_generated_"+k, int64(st.Generated[k])) // by the engine, before deduplication and filters
+	}
+	c.Extra("crash_writes_with_subsampled_torn_lengths", int64(st.LongTorn))
+	c.Extra("crash_image_contents", int64(len(pr.uniq)))
+	return pr, false
+}
+
+func judgeCrashHistory(c *vlib.Ctx, pr *crashPrep, obs []*TombObs, notes map[int]string) {
+	h := pr.h
+	states := map[string]struct{}{}
+	sampled := false
+	for gi, it := range pr.uniq {
+		o := obs[pr.first+gi]
+		if o == nil {
+			if n, ok := notes[pr.first+gi]; ok {
+				c.HarnessError(fmt.Sprintf("crash family: history %s image %v: %s", h.Name, it.im.Desc, n))
+			}
+			continue
+		}
+		c.Extra("crash_recoveries", 1)
+		if o.Stage >= 1 {
+			states[hiddenStr(o.Hidden)] = struct{}{}
+		}
+		for _, ci := range pr.ctxs[gi] {
+			im, cx := ci.im, ci.cx
+			clause, stage, detail, verdict := judgeTomb(o, h.File, cx, it.further)
+			if clause == "harness" {
+				c.HarnessError(fmt.Sprintf("crash family: history %s image %v: %s", h.Name, im.Desc, detail))
+				continue
+			}
+			c.Eval(1)
+			c.Extra("crash_images", 1)
+			c.Extra("crash_images_"+im.Desc.Kind, 1)
+			c.Extra("crash_cuts_at:"+cutClass(im), 1)
+			if o.Stage >= 1 && (len(o.Hidden) > 0 || (len(cx.B) > 0 && len(recordedBy(cx.B).recs) > 0)) {
+				c.Nontrivial("crash|" + specStr(h.File) + specStr(h.Steps[:len(cx.A)+len(cx.B)]) + "|" + im.Desc.String())
+			}
+			res := verdict
+			if clause != "" {
+				res = "FAIL:" + clause + "@" + stage
+			}
+			c.Outcome(fmt.Sprintf("crash:%s/path=%s/inflight=%s:%s", im.Desc.Kind, cx.Path, cx.Infl, res))
+			if clause != "" {
+				cutDesc := fmt.Sprintf("%v: %s %s", im.Desc, im.NextOp, im.NextPath)
+				c.Violation(crashSig(clause, stage, im, cx),
+					fmt.Sprintf("crash history %s (file %s, steps %s), image %s; %d steps acknowledged, in flight: %s — %s", h.Name, specStr(h.File), specStr(h.Steps), cutDesc, len(cx.A), cx.Infl, detail),
+					Case{Fam: "crash", Crash: &CrashCase{History: h, Desc: im.Desc, Digest: prefixDigest(pr.log, im.Desc), Cut: cutDesc}})
+			} else if !sampled && !h.LastOnly && c.WantSample() && im.Desc.Kind == crashfs.KindT && cx.Path == "append" && len(cx.B) > 0 {
+				sampled = true
+				c.Sample(map[string]any{"family": "crash", "history": h.Name, "image": im.Desc.String(), "at": im.NextOp + " " + im.NextPath,
+					"acknowledged_steps": cx.A, "in_flight": cx.B, "hidden_after_recovery": hiddenStr(o.Hidden), "verdict": verdict, "further_tombstone": it.further, "hidden_after_further_tombstone": hiddenStr(o.Hidden2)})
+			}
+		}
+	}
+	c.Extra("crash_distinct_states", int64(len(states)))
+}
+
+// runCrash is the crash phase of run: this worker's share of the histories is recorded (one strace session each),
+// all their images are recovered in shared subprocess batches, then judged.
+func runCrash(c *vlib.Ctx) {
+	defer func() {
+		if r := recover(); r != nil { // a bug of the machinery must never look like a finding or kill the report
+			c.HarnessError(fmt.Sprintf("crash family: explorer panicked: %v\n%s", r, debug.Stack()))
+		}
+	}()
+	scratch := vlib.Scratch("c08c-")
+	defer os.RemoveAll(scratch)
+	var preps []*crashPrep
+	var items []crashItem
+	for hi, h := range crashTombHistories(c.Tier) {
+		if !c.Mine(int64(hi)) {
+			continue
+		}
+		if c.Expired() {
+			c.Cap("budget expired inside the crash family (recording)")
+			break
+		}
+		pr, stop := prepareCrashHistory(c, scratch, h)
+		if stop {
+			return
+		}
+		if pr == nil {
+			continue
+		}
+		pr.first = len(items)
+		items = append(items, pr.uniq...)
+		preps = append(preps, pr)
+	}
+	t0 := time.Now()
+	obs, notes, capped, err := recoverAll(scratch, items, c.Expired)
+	c.Logf("crash family: %d recoveries took %v", len(items), time.Since(t0).Round(time.Millisecond))
+	if err != nil {
+		c.HarnessError("crash family: recovery batch: " + scrub(err.Error(), scratch))
+		return
+	}
+	if capped {
+		c.Cap("budget expired inside the crash family (recovery)")
+	}
+	for _, pr := range preps {
+		judgeCrashHistory(c, pr, obs, notes)
+	}
+}
+
+func replayCrash(cs *CrashCase) (bool, string) {
+	scratch := vlib.Scratch("c08cr-")
+	defer os.RemoveAll(scratch)
+	l, msg := findCrashLog(scratch, cs.History, cs.Desc, cs.Digest)
+	if l == nil {
+		return false, scrub(msg, scratch)
+	}
+	im, err := l.Build(cs.Desc, crashImgOpts)
+	if err != nil {
+		return false, "cannot rebuild the image: " + err.Error()
+	}
+	cx, ok := tombContextOf(cs.History, im)
+	if !ok {
+		return false, "the image lies before the acknowledgement of the TSM file"
+	}
+	fo := furtherOp(cs.History.File, cx)
+	dir, _ := os.MkdirTemp(scratch, "img-")
+	res, out, err := runCrashRecovery(dir, []crashItem{{im, cs.History.File, fo}}, isolatedTimeout)
+	if err != nil {
+		return false, "recovery could not be run: " + scrub(err.Error(), scratch)
+	}
+	obs := fmt.Sprintf("crash history %s image %v (at the cut: %s %s; %d steps acknowledged, in flight: %s, %s path): ", specStr(cs.History.Steps), cs.Desc, im.NextOp, im.NextPath, len(cx.A), cx.Infl, cx.Path)
+	o := res["0"]
+	if o == nil {
+		o = &TombObs{ID: "0", Died: deathClass(out)}
+	}
+	clause, stage, detail, verdict := judgeTomb(o, cs.History.File, cx, fo)
+	if clause == "" {
+		return false, obs + "visible tombstone set = " + verdict + " " + hiddenStr(o.Hidden)
+	}
+	return clause != "harness", obs + clause + "@" + stage + ": " + detail
+}
+
+// ---------------------------------------------------------------------------------------------------------
 // run / replay
 // ---------------------------------------------------------------------------------------------------------
 
@@ -1758,6 +2576,15 @@ func run(c *vlib.Ctx) {
 		}
 	}()
 	var idx int64
+	only := os.Getenv("C08_ONLY") // development aid: "readback" | "tomb" | "crash"
+
+	// --- crash family first: small and of fixed size, so a budget cap always lands in the big families
+	if only == "" || only == "crash" {
+		runCrash(c)
+	}
+	if only == "crash" {
+		return
+	}
 
 	// --- maxkey (one case)
 	idx++
@@ -1770,7 +2597,6 @@ func run(c *vlib.Ctx) {
 
 	// --- readback
 	capped := false
-	only := os.Getenv("C08_ONLY") // development aid: "readback" | "tomb"
 	visitFile := func(fam string, fs FileSpec) bool {
 		if only == "tomb" {
 			return false
@@ -1903,6 +2729,11 @@ func replay(c *vlib.Ctx, raw json.RawMessage) (bool, string) {
 	var fails []fail
 	extra := ""
 	switch cs.Fam {
+	case "crash":
+		if cs.Crash == nil {
+			return false, "no crash case"
+		}
+		return replayCrash(cs.Crash)
 	case "maxkey":
 		fails = evalMaxKey(dir)
 	case "readback":
@@ -1935,6 +2766,12 @@ func replay(c *vlib.Ctx, raw json.RawMessage) (bool, string) {
 }
 
 func TestCheck(t *testing.T) {
+	if js := os.Getenv("VERIF_CRASH_WRITER"); js != "" {
+		os.Exit(crashWriterMain(js))
+	}
+	if jp := os.Getenv("VERIF_C08_RECOVER"); jp != "" {
+		os.Exit(crashRecoverMain(jp))
+	}
 	vlib.Main(t, &vlib.Check{
 		ID: "C08", Level: "exploration",
 		Rule: "READBACK, real TSM files over a 6-key pool (prefix pair, escaped comma, 65535-byte key, 0xFF byte, 1-byte key), logical timestamps {1..5}: (a) focus: 1 key x all 111 layouts (non-empty subset of {1..5} in 1..3 blocks) x {alone x 5 block types, among the 5 other keys x 1 rotating type (quick) / 5 types (thorough)}, writer variant rotating, 1 (quick) / 2 (thorough) passes; (b) shifted: time shifts {-10,-3,1e18} x (3 keys x 111 layouts + 3 key pairs x 16 layout pairs); (c) subsets: every non-empty key subset x every assignment of 2 (quick) / 3 (thorough) fixed layouts x 2 type rotations x 4 writers, thorough also 4 other layouts x 1 writer; writers = in-memory|disk-buffered index x Write|WriteBlock; (d, thorough) the prefix key pair x 111x111 layouts; plus one 65536-byte key. Per file: byte-level parse vs model, then Contains/Seek/KeyAt/Key/KeyCount/Type/Entries/ReadEntries/Read/ReadAt/ReadAll/ContainsValue/BlockIterator/KeyRange/TimeRange/Stats/OverlapsTimeRange/OverlapsKeyRange over 20 probe keys (14 absent neighbours, all ordered pairs for key ranges) and times 0..6 (all sub-ranges + infinite ones). TOMB, 4 (quick) / 8 (thorough) base files of 1-3 keys: tomb1 = every non-empty subset of 3-4 argument keys (incl. absent ones) x {DeleteRange x 25 ranges, BatchDelete+Commit and BatchDelete+Rollback x 6 (quick) / 25 (thorough) ranges} and Delete(keys); tomb2 = every ordered pair of ops over key subsets {singletons of file keys, whole argument set} x 6 ranges (quick) / {singletons of argument keys, pairs of file keys, whole set} x 7 ranges (thorough) x {one batch, two batches, reopen between, first rolled back, second rolled back (thorough only), first as Delete}; tomb3 = every triple of 6 (quick) / 7 (thorough) ranges on one key x {one batch, three batches}; every history is checked on the live reader and after a reopen. RECOVERY (no crash; the two halves the crash engine reuses): 1 two-key file x {no prior tombstone, 1 committed op} x 1 op over 2 keys x 6 ranges: WriteTombHistory then CheckRecovery must say old after the acknowledged steps and new after all. Order: focus, shifted, subsets, tomb, then (thorough) 4-layout subsets and pairs. non-trivial = file with >1 key or >1 block, every tombstone history (deduplicated by spec)",
